@@ -97,6 +97,14 @@ func (w *worker) runKey(c *keyCase, raw []byte) {
 			{"filter-exists", "$[?(@" + sp.sel + ")]", []interface{}{map[string]interface{}{"z": 1.0}, mk()}, ""},
 			{"filter-compare", "$[?(@" + sp.sel + " == 'TARGET')]", []interface{}{mk(), map[string]interface{}{key: "other"}}, ""},
 			{"omitted-root", strings.TrimPrefix(sp.sel, "."), mk(), `["TARGET"]`},
+			{"omitted-root-then-step", strings.TrimPrefix(sp.sel, ".") + ".w", func() interface{} {
+				m := mk()
+				for k := range m {
+					m[k] = map[string]interface{}{"w": m[k]}
+				}
+				m["w"] = "ROOT-W"
+				return m
+			}(), `["TARGET"]`},
 		}
 		for _, cx := range ctxs {
 			w.count("C16:retrievals", 1)
